@@ -23,6 +23,7 @@ BUILTIN_ENUMS = {
     'TokenTree': ['Group', 'Ident', 'Punct', 'Literal'],
     'Spacing': ['Alone', 'Joint'],
     'Meta': ['Path', 'List', 'NameValue'],
+    'Visibility': ['Public', 'Restricted', 'Inherited'],
 }
 
 CRATES = {
